@@ -22,11 +22,13 @@ def chk(pid, technique, text, note, ref):
 chk("C01", "runtime monitor (postcondition) on Solver.find_answer; oracle = reference evaluator + brute-force model enumeration + cvc5",
     "Every find_answer call made by generated programs / incremental sessions / graph encodings is judged at run time: the model left in .sol is "
     "re-evaluated by an independent evaluator on every call, and satisfiability is decided independently (all assignments, or cvc5 for wide domains). "
+    "Histories: sessions whose variable count crosses 10/100 between solves, shared sub-term objects, planted instances with config.solver_timeout set. "
     "Held on the executions observed, not a proof.",
     "ref_eval semantics; cvc5/system z3 binaries for wide domains; bounded program size (depth<=5, <=7 variables)", "DESIGN.md §3 C01")
 chk("C02", "runtime monitor (postcondition) on Solver.solve; exact fact table from all models; adversarial model-chooser stand-in drives the refinement loop",
     "Every solve call is compared with the table of forced values computed from ALL models; the refinement loop is driven through z3 and through a "
-    "protocol stand-in whose model choice is hostile (stubborn/scatter/first/last/random), and through native-deduction replies.",
+    "protocol stand-in whose model choice is hostile (stubborn/scatter/first/last/random), and through native-deduction replies; planted latin squares "
+    "(every key decided by two cvc5 queries) with config.solver_timeout set.",
     "ref_brute on programs with domain product <= 8192; stand-in implements the reply formats of CspuzSugarInterface.java", "DESIGN.md §3 C02")
 
 chk("C03", "runtime monitor at the client boundary of the text-protocol backends (M-WIRE) + M-SOLVE end to end; far end = protocol stand-in",
@@ -40,23 +42,28 @@ GRAPH_NOTE = ("z3 (the solver cspuz itself calls) decides the posted program: SA
               "UNSAT answers are trusted; primitive encodings are decided against a stand-in for the absent native solvers; bounds of the sweeps as in RULE")
 chk("C04", "runtime execution of the real constraint on every pattern of small graphs/grids under M-SOLVE/M-WIRE; oracle = induced-subgraph connectivity / tree definition",
     "All labelled graphs <=4 vertices (thorough: 5) and all grids <=9 cells (thorough: 12, accepted-set to 16) x all activity patterns x acyclic x both "
-    "encodings x operand forms are executed through the real function and compared with the definition; larger grids/graphs by sampled patterns.",
+    "encodings x operand forms are executed through the real function and compared with the definition; larger grids/graphs by sampled patterns "
+    "(winding regions to 7x7, long paths); Graph objects used before further add_edge, grown edge by edge, made by line_graph(), with self-loops.",
     GRAPH_NOTE, "DESIGN.md §3 C04")
 chk("C05", "runtime execution of division_connected on every labeling of small graphs/grids under M-SOLVE/M-WIRE; oracle = class-connectivity definition",
-    "All labelled graphs <=4 vertices and grids <=6 cells x k<=3 x all labelings x allow_empty x roots x both encodings x label forms vs the definition.",
+    "All labelled graphs <=4 vertices and grids <=6 cells x k<=3 x all labelings x allow_empty x roots x both encodings x label forms vs the definition; "
+    "winding regions on boards to 7x7, long paths rooted at one end, self-loops, line_graph() objects, roots lists longer than num_regions.",
     GRAPH_NOTE, "DESIGN.md §3 C05")
 chk("C06", "runtime execution of single_cycle/single_path with the passed-array as answer keys under solve(); oracle = degree + union-find definition and lattice geometry",
     "All multigraphs <=4 vertices (<=6 edges) and frames up to 2x2 x all edge subsets, frames to 3x3 by accepted-set enumeration against all simple cycles; "
-    "the returned array must come back forced to the visited set.", GRAPH_NOTE, "DESIGN.md §3 C06")
+    "the returned array must come back forced to the visited set; long cycles on frames to 7x7 and cycle graphs to 26 vertices with near misses; "
+    "constant / compound edge flags, frames over caller-supplied arrays.", GRAPH_NOTE, "DESIGN.md §3 C06")
 chk("C07", "runtime execution of variable-group division for every set partition / border pattern under M-SOLVE/M-WIRE; oracle = partition definition",
     "All labelled graphs <=4 vertices and grids <=6 cells x all set partitions x six group_size forms (driver A) and x border patterns, explicit and "
-    "inner-frame forms, aux and native graph-division (driver B).", GRAPH_NOTE, "DESIGN.md §3 C07")
+    "inner-frame forms, aux and native graph-division (driver B); winding blocks on boards to 6x6, line_graph() objects, frames over one or two "
+    "caller-supplied arrays.", GRAPH_NOTE, "DESIGN.md §3 C07")
 chk("C08", "reference evaluation of every clause posted by not_adjacent under all patterns; three-way comparison grid encoding / explicit-graph form / definition for not_segmenting",
     "not_adjacent: all graphs <=5 vertices, all grids <=12 cells, all patterns, no solver needed; not_segmenting: all grids <=9 cells pointwise in both "
-    "encodings and <=12 (thorough 20) cells by accepted-set enumeration, incl. 1xN and Nx1.", GRAPH_NOTE, "DESIGN.md §3 C08")
+    "encodings and <=12 (thorough 20) cells by accepted-set enumeration, incl. 1xN and Nx1; sampled deep diagonal chains on boards to 7x7 (thorough 9x9); "
+    "self-loops and line_graph() objects.", GRAPH_NOTE, "DESIGN.md §3 C08")
 chk("C09", "runtime execution of active_edges_acyclic on every edge subset of small multigraphs under M-SOLVE; oracle = union-find forest test",
     "All multigraphs <=4 vertices (mult<=2, <=7 edges) up to isomorphism pointwise, all labelled simple graphs on 4 (thorough 5) vertices by accepted-set, "
-    "random multigraphs n<=9.", GRAPH_NOTE, "DESIGN.md §3 C09")
+    "random multigraphs n<=9, long paths / deep spanning trees (n to 36), line_graph() objects.", GRAPH_NOTE, "DESIGN.md §3 C09")
 chk("C10", "runtime execution of the crossable constraint with both returned arrays as answer keys under solve(); oracle = degree rule + segment union-find",
     "Frames up to 1x3 and 2x2 x all segment subsets x single_cycle, near-valid random trails on 2x3..3x3 (thorough 4x3), primitive route sampled.",
     GRAPH_NOTE, "DESIGN.md §3 C10")
